@@ -42,6 +42,7 @@ static int fsOpenFds()
 // one request through [handler]: ( status contentLength contentRange body closed )
 static Val oneRequest(FilesystemHandler &handler, const QString &base, QByteArray pathB, const Val &hdrs)
 {
+    pathB.replace("@BASEREL@", base.toUtf8().mid(1));      // the scratch directory as a path relative to the file system's root
     pathB.replace("@BASE@", base.toUtf8());
     QString path = QString::fromUtf8(pathB);
     QByteArray wire;
